@@ -38,7 +38,7 @@ Definition enc_value (v : value) : list Z := v_shape v :: zlen (v_parts v) :: fl
 Definition kind_code (k : kind) : Z :=
   match k with
   | KConst => 0 | KListCopy => 1 | KDictCopy => 2 | KTraitList => 3 | KTraitDict => 4 | KTraitSet => 5
-  | KFactory => 6 | KMethod => 7 | KTuple => 8 | KUnion => 9 | KEvent => 10 | KMethodInt => 11 | KTuple2 => 12 | KArray => 13
+  | KFactory => 6 | KMethod => 7 | KTuple => 8 | KUnion => 9 | KEvent => 10 | KMethodInt => 11 | KTuple2 => 12 | KArray => 13 | KUuid => 14
   end.
 Definition enc_tdef (t : tdef) : list Z :=
   kind_code (t_kind t) :: t_scalar t :: t_doid t :: t_nnotif t :: (if t_static t then 1 else 0) :: t_cmp t :: t_label t
